@@ -4,8 +4,8 @@
    common-rule node into an object node carrying (tpos, tend) of that parse-tree node; the
    selection of children mirrors pnode (plain assignment: node[0]; list assignment: the
    non-separator children; abstract rule: the child pnode picks; match rules: no objects).
-   No proofs here (Proofs/EdPosBuildProofs.v).  Non-containment references are outside
-   Build.v's fragment (EUnsup), so [abs] produces no reference nodes. *)
+   No proofs here (Proofs/EdPosBuildProofs.v).  A non-containment reference assignment yields a reference node for the child it
+   is read from (Build.v: VRef name (tpos k) cls). *)
 From TxV Require Import Core.Base Model.PegSyntax Model.Peg Model.Build Model.EdPosDefs Gen.SrcEdPos Model.EdPos.
 
 Section Sel.
@@ -43,26 +43,41 @@ Variable mm : list ninfo.
 
 Definition nspan (t : tree) : N * N := (N.of_nat (Build.tpos t), N.of_nat (Build.tend t)).
 
-Fixpoint abs (t : tree) : list node :=
+(* metaattr.ref and not metaattr.cont, looked up in the class of the enclosing object *)
+Definition is_refattr (a : list N) (meta : list attr) : bool :=
+  match find_attr a meta with Some ma => (a_ref ma && negb (a_cont ma))%bool | None => false end.
+
+(* the reference node made for child k of a reference assignment: ObjCrossRef(position=k.position,
+   position_end=k.position_end); the converted name is not tracked here *)
+Definition refnode (k : tree) : node := NRef (tree_nid k) (fst (nspan k)) (snd (nspan k)) [].
+
+(* [meta] = _tx_attrs of the class of the enclosing object (what pnode reads from the stack top) *)
+Fixpoint abs (meta : list attr) (t : tree) : list node :=
   match t with
   | T _ _ _ _ => [NTok (fst (nspan t)) (snd (nspan t))]
   | NT nid kids =>
     match info mm nid with
-    | IAsgn _ OpPlain => match kids with k :: _ => abs k | [] => [] end
-    | IAsgn _ OpList => flat_map (fun k => if is_sep_of g nid k then [] else abs k) kids
+    | IAsgn a OpPlain =>
+      match kids with
+      | k :: _ => (if is_refattr a meta then [refnode k] else []) ++ abs meta k
+      | [] => []
+      end
+    | IAsgn a OpList =>
+      flat_map (fun k => if is_sep_of g nid k then []
+                         else (if is_refattr a meta then [refnode k] else []) ++ abs meta k) kids
     | IAsgn _ _ => []
-    | IRule RCommon _ _ => [NObj nid (fst (nspan t)) (snd (nspan t)) (flat_map abs kids)]
+    | IRule RCommon _ attrs => [NObj nid (fst (nspan t)) (snd (nspan t)) (flat_map (abs attrs) kids)]
     | IRule RMatch _ _ => [NTok (fst (nspan t)) (snd (nspan t))]
     | IRule RAbstract _ _ =>
       match kids with
       | [] => []
       | k :: rest =>
         match rest with
-        | [] => abs k
+        | [] => abs meta k
         | _ :: _ =>
-          match sel_nonmatch (list node) abs [] (nonmatch_class mm) kids with
+          match sel_nonmatch (list node) (abs meta) [] (nonmatch_class mm) kids with
           | Some r => r
-          | None => match sel_nt (list node) abs [] (has_class mm) kids with Some r => r | None => [] end
+          | None => match sel_nt (list node) (abs meta) [] (has_class mm) kids with Some r => r | None => [] end
           end
         end
       end
@@ -78,18 +93,28 @@ Definition is_common (t : tree) : Prop :=
   match t with NT nid _ => exists c a, info mm nid = IRule RCommon c a | T _ _ _ _ => False end.
 End Abs.
 
-(* spans of the objects inside a built value *)
-Fixpoint vspans (v : value) : list (nat * nat) :=
+(* what a built value contains: objects with their spans, pending references with their position *)
+Inductive bitem := IObj (s e : N) | IRef (s : N).
+
+Fixpoint vitems (v : value) : list bitem :=
   match v with
-  | VObj _ p e attrs => (p, e) :: flat_map (fun kv => match kv with (_, w) => vspans w end) attrs
-  | VList l => flat_map vspans l
-  | VJoin _ parts => flat_map vspans parts
-  | VConv _ w => vspans w
+  | VObj _ p e attrs => IObj (N.of_nat p) (N.of_nat e) :: flat_map (fun kv => match kv with (_, w) => vitems w end) attrs
+  | VRef w p _ => IRef (N.of_nat p) :: vitems w
+  | VList l => flat_map vitems l
+  | VJoin _ parts => flat_map vitems parts
+  | VConv _ w => vitems w
   | _ => []
   end.
-Definition valspans (vals : list (list N * value)) : list (nat * nat) :=
-  flat_map (fun kv => match kv with (_, w) => vspans w end) vals.
-Definition topspans (top : option cur) : list (nat * nat) :=
-  match top with Some c => valspans (c_vals c) | None => [] end.
-Definition sp (pe : nat * nat) : N * N := (N.of_nat (fst pe), N.of_nat (snd pe)).
-Definition ospans (ns : list node) : list (N * N) := map ikey (flat_map objs_post ns).
+Definition valitems (vals : list (list N * value)) : list bitem :=
+  flat_map (fun kv => match kv with (_, w) => vitems w end) vals.
+Definition topitems (top : option cur) : list bitem :=
+  match top with Some c => valitems (c_vals c) | None => [] end.
+
+(* the same for the abstracted tree: registration of objects, collection of references *)
+Fixpoint nitems (n : node) : list bitem :=
+  match n with
+  | NObj _ s e kids => flat_map nitems kids ++ [IObj s e]
+  | NRef _ s _ _ => [IRef s]
+  | NTok _ _ => []
+  end.
+Definition oitems (ns : list node) : list bitem := flat_map nitems ns.
